@@ -56,10 +56,12 @@ fn kind_of(a: &MigrationAction) -> &'static str {
 
 struct Out {
     rows: Vec<Value>,
+    histories: Vec<Value>,
 }
 
 /// One row per migration of the history (stops at the first plan that does not replay).
 fn emit_history(out: &mut Out, tag: &str, hist: usize, history: &[MigrationPlan]) {
+    out.histories.push(json!({"hist": hist, "tag": tag, "history": history}));
     for k in 0..history.len() {
         let Ok(baseline) = schema_from_plans(&history[..k]) else { return };
         let plan = &history[k];
@@ -499,7 +501,7 @@ fn main() {
     std::fs::create_dir_all(&outdir).unwrap();
     std::panic::set_hook(Box::new(|_| {})); // panics are outcomes (catch_unwind), not noise
     let mut rng = Rng::new(seed);
-    let mut out = Out { rows: vec![] };
+    let mut out = Out { rows: vec![], histories: vec![] };
     let mut hist = 0usize;
     let mut rejected = 0usize;
 
@@ -603,6 +605,11 @@ fn main() {
         let _ = writeln!(s, "{}", v);
     }
     std::fs::write(outdir.join("cases.jsonl"), s).unwrap();
+    let mut hs = String::new();
+    for v in &out.histories {
+        let _ = writeln!(hs, "{}", v);
+    }
+    std::fs::write(outdir.join("histories.jsonl"), hs).unwrap();
     std::fs::write(outdir.join("meta.json"), json!({"seed": seed, "n_cases": out.rows.len(), "histories": hist, "rejected_edits": rejected}).to_string()).unwrap();
     println!("cases={} histories={} rejected_edits={}", out.rows.len(), hist, rejected);
 }
